@@ -37,7 +37,8 @@ def budget(tier):
 
 
 def strategy(tier):
-    return S.problems(PROFILE)
+    # a fifth of the cases come from the family on which second-order-correction steps are frequent
+    return S.problems_mix([(PROFILE, 4), (dict(PROFILE, **S.SOC_PRONE), 1)])
 
 
 def run_case(spec):
